@@ -441,6 +441,11 @@ HIST_INPUTS = [
     ({"Root": [{"s": "a"}, {"s": "b"}]}, "attrs", "flat", {}),
     ({"Root": [{"s": "a"}, {"s": "b"}]}, "dataclasses", "flat", {"types_style": "literal_off"}),
     ({"Root": [{"s": "a"}, {"s": "b"}]}, "dataclasses", "flat", {}),
+    # unicode conversion off (field sorting then walks the types), class names that prepare_label escapes, same shape with another key order
+    ({"Root": [{"a": {"x": 1}, "b": [{"y": "s"}], "c": 1.5}, {"a": {"x": 2}}]}, "attrs", "flat", {"convert_unicode": False}),
+    ({"Root": [{"warnings": {"w": 1}, "list": {"l": {"any": {"z": 1}}}, "field": {"f": 2}}]}, "pydantic", "nested", {}),
+    ({"Root": [{"k1": 1, "k2": "s", "k3": None, "k4": [1]}]}, "dataclasses", "flat", {}),
+    ({"Root": [{"k4": [1], "k3": None, "k2": "s", "k1": 1}]}, "dataclasses", "flat", {}),
     # unions with a member whose rendering depends on the framework / the literal limit
     ({"Root": [{"v": 1, "w": [1, "x"]}, {"v": "open", "w": ["y"]}, {"v": "closed", "w": []}]}, "dataclasses", "flat", {}),
     ({"Root": [{"v": {"k": 1}, "n": "1"}, {"v": "open", "n": 2.5}]}, "pydantic", "nested", {}),
